@@ -77,6 +77,88 @@ def run_history(ctx, idx, nseq, nconc, hold_us, skip_every=3, damage=False):
     return out
 
 
+def staggered_history(ctx, idx):
+    """A run exits while another one is between its two lock-protected sections, then a third one starts and holds its sections
+    for a long time: the first one must wait for it.  A: several inputs (long treatment between its sections); B: one input,
+    finishes during A's treatment; C: started once B has exited, sections lengthened to 1.5 s."""
+    d = ctx.path("stag-%d" % idx)
+    os.makedirs(d, exist_ok=True)
+    sem = "/vf-c46s-%d-%d" % (os.getpid(), idx)
+    shm = "/dev/shm/sem." + sem[1:]
+    if os.path.exists(shm):
+        os.remove(shm)
+    trace = os.path.join(d, "events.ndjson")
+    open(trace, "w").close()
+    mfront = os.path.join(core.BUILD, "mfront/src/mfront")
+    young = os.path.join(core.HARNESS, "data/VfYoung.mfront")
+    many = [os.path.join(core.REPO, "mfront/tests/behaviours", f) for f in
+            ("Norton.mfront", "Plasticity.mfront", "ImplicitNorton.mfront", "Elasticity.mfront", "Lorentz.mfront", "Chaboche.mfront",
+             "ImplicitNorton2.mfront", "Norton2.mfront", "ViscoPlasticity.mfront", "Chaboche2.mfront")]
+    many = [f for f in many if os.path.exists(f)]
+
+    def env(hold_us):
+        e = dict(os.environ)
+        e.update(core.run_env({"TFEL_VERIF_LOCK_NAME": sem, "TFEL_VERIF_TRACE": trace, "TFEL_VERIF_DELAY": "lock:inside:%d" % hold_us}))
+        return e
+
+    def spawn(argv, hold_us, sub):
+        w = os.path.join(d, sub)
+        os.makedirs(w, exist_ok=True)
+        return subprocess.Popen([mfront] + argv, cwd=w, env=env(hold_us), stdout=subprocess.DEVNULL, stderr=subprocess.DEVNULL)
+    import signal
+
+    def wait_event(pid, name, count, timeout=60.0):
+        """wait until process pid has logged `count` events `name`"""
+        t0 = time.time()
+        while time.time() - t0 < timeout:
+            n = sum(1 for e in core.read_ndjson(trace) if e["p"] == pid and e["e"] == name)
+            if n >= count:
+                return True
+            time.sleep(0.002)
+        return False
+    ps = []
+    # A holds its first section for 0.3 s and is frozen (SIGSTOP) as soon as it announces that it leaves it: it stays between its
+    # two sections, with the semaphore opened
+    a = spawn(["--search-path=" + os.path.join(core.REPO, "mfront/tests/properties"), "--interface=generic"] + many, 300000, "a")
+    ps.append(a)
+    frozen = wait_event(a.pid, "SemPost", 1)
+    if frozen:
+        os.kill(a.pid, signal.SIGSTOP)
+    # B: an ordinary run, from its start to its exit
+    b = spawn(["--interface=c", young], 1000, "b")
+    ps.append(b)
+    try:
+        b.wait(timeout=120)
+    except subprocess.TimeoutExpired:
+        b.kill()
+    # C holds each of its sections for 1.5 s; A is resumed once C is inside its first one
+    c = spawn(["--interface=c", young], 1500000, "c")
+    ps.append(c)
+    wait_event(c.pid, "CSEnter", 1)
+    if frozen:
+        os.kill(a.pid, signal.SIGCONT)
+    hung = False
+    for p in ps:
+        try:
+            p.wait(timeout=180)
+        except subprocess.TimeoutExpired:
+            p.kill()
+            p.wait()
+            hung = True
+    with open(trace, "a") as f:
+        for p in ps:
+            f.write('{"e":"ProcExit","p":%d,"t":0,"a":%d,"b":-1,"c":-1}\n' % (p.pid, p.returncode if p.returncode is not None else -99))
+    if os.path.exists(shm):
+        os.remove(shm)
+    if hung:
+        ctx.violation("hang", "an mfront run blocked for more than 180 s on the lock in the staggered history", {"history": "staggered"})
+    pid, out = {}, []
+    for e in core.read_ndjson(trace):
+        q = pid.setdefault(e["p"], len(pid) + 1)
+        out.append({"e": e["e"], "p": q, "a": e["a"]})
+    return out
+
+
 def run(ctx):
     ctx.build("mfront")
     # ---- MC ----
@@ -100,8 +182,9 @@ def run(ctx):
     if ctx.thorough:
         hists += [(rnd.randint(0, 6), rnd.randint(2, 12), rnd.choice([2000, 8000, 30000]), rnd.random() < 0.3) for _ in range(12)]
     ntr, nev, samples = 0, 0, []
+    hists.append(("staggered", 3, 1500000, False))
     for i, (ns, nc, hold, dmg) in enumerate(hists):
-        ev = run_history(ctx, i, ns, nc, hold, damage=dmg)
+        ev = staggered_history(ctx, i) if ns == "staggered" else run_history(ctx, i, ns, nc, hold, damage=dmg)
         if not any(e["e"] == "CSEnter" for e in ev):
             raise Broken("no CSEnter event recorded: hooks are not compiled in / trace not written")
         v = validate_trace(ctx, "mfront/LockTrace", "LockTrace.cfg", ev, name="lock")
